@@ -2,8 +2,9 @@
 import z3
 
 from contracts.common import COLS, col, nof, sym_tree, sym_tree_fixed
+from pyvc import ext_C09 as X
 from pyvc.spec import Registry
-from pyvc.values import NArr, Obj, PDict, SArr, Sym, fresh_name, to_z3, zint
+from pyvc.values import NArr, Obj, PDict, PList, SArr, Sym, fresh_name, to_z3, zint
 
 NODE = "swcgeom/core/node.py"
 TREE = "swcgeom/core/tree.py"
@@ -11,6 +12,7 @@ PATH = "swcgeom/core/path.py"
 BRANCH = "swcgeom/core/branch.py"
 SWC = "swcgeom/core/swc.py"
 KEYS = list(COLS)
+OPTS = dict(models=X.MODELS)
 
 
 def node_obj(S, t, idx=None):
@@ -193,3 +195,169 @@ def register(R: Registry):
     R.add(f"{SWC}:DictSWC.copy", prop="C09", pure_inline=True,
           setup=lambda S: dict(self=sym_tree(S, "t")),
           ensures=[("equal-content-in-fresh-storage", copy_post)])
+
+    register_path(R, path_obj)
+
+
+
+# =====================================================================================================================
+# Path: the window itself (construction, length, indexing, re-indexed ids, iteration)
+def pidx(p):
+    return p.fields["idx"]
+
+
+def qj(name="j"):
+    return z3.Int(fresh_name(name))
+
+
+def slice_positions(sl, n):
+    """Python's sequence slicing s[a:b:st] on a sequence of length n (language reference, 'Slicings' / sequence types
+    note 5), st a concrete non-zero int or None: (first position, step, number of positions)."""
+    st = 1 if sl.step is None else sl.step
+
+    def norm(v, dflt, lo_clip, hi_clip):
+        if v is None:
+            return dflt
+        vz = to_z3(v, "int")
+        vz = z3.If(vz < 0, vz + n, vz)
+        return z3.If(vz < lo_clip, lo_clip, z3.If(vz > hi_clip, hi_clip, vz))
+
+    if st > 0:
+        lo, hi = norm(sl.start, z3.IntVal(0), z3.IntVal(0), n), norm(sl.stop, n, z3.IntVal(0), n)
+        cnt = z3.If(hi > lo, (hi - lo + (st - 1)) / st, z3.IntVal(0))
+    else:
+        lo, hi = norm(sl.start, n - 1, z3.IntVal(-1), n - 1), norm(sl.stop, z3.IntVal(-1), z3.IntVal(-1), n - 1)
+        cnt = z3.If(lo > hi, (lo - hi + (-st - 1)) / (-st), z3.IntVal(0))
+    return lo, st, cnt
+
+
+def slice_variants(S):
+    """the slice shapes verified (bounds symbolic, step concrete)"""
+    a, b = S.int("a"), S.int("b")
+    return {"a:b": slice(a, b), "a:": slice(a, None), ":b": slice(None, b), ":": slice(None, None), "a:b:1": slice(a, b, 1),
+            "a:b:2": slice(a, b, 2), "a:b:3": slice(a, b, 3), "::-1": slice(None, None, -1), "a:b:-1": slice(a, b, -1), "a:b:-2": slice(a, b, -2),
+            "a::-1": slice(a, None, -1), ":b:-1": slice(None, b, -1)}
+
+
+SLICES = ["a:b", "a:", ":b", ":", "a:b:1", "a:b:2", "a:b:3", "::-1", "a:b:-1", "a:b:-2", "a::-1", ":b:-1"]
+
+
+def handles(v):
+    r = v["result"]
+    return X._handles_of(r)
+
+
+def register_path(R, path_obj):
+    from swcgeom.core.path import Path
+
+    def sym_path(S, frozen=True):
+        return path_obj(S, sym_tree(S, "t", frozen=frozen))
+
+    def idx_in_tree(E, v, o):
+        """precondition of every view: the positions the window refers to are rows of the owner"""
+        p = v["self"]
+        idx, t = pidx(p), p.fields["attach"]
+        j = qj()
+        return z3.ForAll([j], z3.Implies(z3.And(j >= 0, j < idx.nz()), z3.And(idx.get(j).z >= 0, idx.get(j).z < nof(t))))
+
+    PRE = [("window-positions-are-rows-of-the-owner", idx_in_tree)]
+
+    # ------------------------------------------------------------------ Path.__init__
+    def init_setup(form):
+        def f(S):
+            t = sym_tree(S, "t")
+            if form == "array":
+                idx = S.arr("int", name="ids")
+            elif form == "list":
+                idx = S.plist("int", name="ids")
+            else:
+                idx = PList([S.int(f"ids{k}") for k in range(3)])
+            idx.frozen = True
+            return dict(self=S.obj(Path), attach=t, idx=idx)
+
+        return f
+
+    def init_post(E, v, o):
+        p, t, src = v["self"], v["attach"], o["idx"]
+        a = p.fields.get("idx")
+        if p.fields.get("attach") is not t or p.fields.get("names") is not t.fields["names"] or p.fields.get("source") != t.fields["source"]:
+            return False
+        if not isinstance(a, (SArr, NArr)) or a.kind != "int" or a.uid in E.entry_uids or getattr(a, "view_of", None) is not None:
+            return False
+        if isinstance(a, NArr):
+            return z3.And(*[to_z3(x, "int") == to_z3(y, "int") for x, y in zip(a.items, src.items)]) if len(a.items) == len(src.items) else False
+        j = qj()
+        n0 = src.nz()
+        return z3.And(a.nz() == n0, z3.ForAll([j], z3.Implies(z3.And(j >= 0, j < n0), a.get(j).z == src.get(j).z)))
+
+    R.add(f"{PATH}:Path.__init__", prop="C09",
+          variants={f"idx-given-as-{form}": init_setup(form) for form in ("array", "list", "list-of-3")},
+          ensures=[("window-on-the-given-owner-with-a-private-copy-of-the-positions", init_post)])
+
+    # ------------------------------------------------------------------ Path.__len__
+    R.add(f"{PATH}:Path.__len__", prop="C09",
+          setup=lambda S: dict(self=sym_path(S)), requires=PRE,
+          ensures=[("number-of-window-positions", lambda E, v, o: to_z3(v["result"], "int") == pidx(v["self"]).nz())])
+
+    # ------------------------------------------------------------------ Path.node / get_node
+    def node_post(E, v, o):
+        r, p = v["result"], v["self"]
+        return isinstance(r, Obj) and r.cls is Path.Node and r.fields.get("attach") is p and r.fields.get("names") is p.fields["names"] and r.fields.get("idx") is v["idx"]
+
+    for fn in ("node", "get_node"):
+        R.add(f"{PATH}:Path.{fn}", prop="C09",
+              setup=lambda S: dict(self=sym_path(S), idx=S.int("i")),
+              ensures=[("handle-on-this-path-at-the-given-position", node_post)])
+
+    # ------------------------------------------------------------------ Path.__getitem__
+    def key_out_of_range(E, v, o):
+        k, n = to_z3(v["key"], "int"), pidx(v["self"]).nz()
+        return z3.Or(k < -n, k >= n)
+
+    def item_post(E, v, o):
+        r, p = v["result"], v["self"]
+        if not (isinstance(r, Obj) and r.cls is Path.Node and r.fields.get("attach") is p and r.fields.get("names") is p.fields["names"]):
+            return False
+        k, n = to_z3(o["key"], "int"), pidx(p).nz()
+        return to_z3(r.fields["idx"], "int") == z3.If(k < 0, k + n, k)
+
+    def slice_post(E, v, o):
+        p, h = v["self"], handles(v)
+        if h is None or h.cls_ is not Path.Node or h.fixed.get("attach") is not p or h.fixed.get("names") is not p.fields["names"]:
+            return False
+        lo, st, cnt = slice_positions(o["key"], pidx(p).nz())
+        k = qj("k")
+        return z3.And(zint(h.n) == cnt, z3.ForAll([k], z3.Implies(z3.And(k >= 0, k < cnt), z3.Select(h.col("idx"), k) == lo + k * st)))
+
+    def str_post(E, v, o):
+        p = v["self"]
+        c = col(p.fields["attach"], v["key"])
+        idx, r = pidx(p), v["result"]
+        j = qj()
+        return z3.And(r.nz() == idx.nz(), r.uid not in E.entry_uids,
+                      z3.ForAll([j], z3.Implies(z3.And(j >= 0, j < idx.nz()), r.get(j).z == z3.Select(c.arr, idx.get(j).z))))
+
+    gi_variants = {"int": lambda S: dict(self=sym_path(S), key=S.int("key"))}
+    for nm in SLICES:
+        gi_variants["slice " + nm] = (lambda S, _nm=nm: dict(self=sym_path(S), key=slice_variants(S)[_nm]))
+    for k in KEYS:
+        gi_variants["str " + k] = (lambda S, _k=k: dict(self=sym_path(S), key=_k))
+
+    def by_form(int_c, slice_c, str_c):
+        def f(E, v, o):
+            key = o["key"] if o is not None else v["key"]
+            if isinstance(key, slice):
+                return slice_c(E, v, o) if slice_c else True
+            if isinstance(key, str):
+                return str_c(E, v, o) if str_c else True
+            return int_c(E, v, o) if int_c else True
+
+        return f
+
+    R.add(f"{PATH}:Path.__getitem__", prop="C09", variants=gi_variants, requires=PRE,
+          raises={"IndexError": ("only-an-integer-outside-[-len,len)", by_form(key_out_of_range, lambda E, v, o: False, lambda E, v, o: False))},
+          ensures=[("integer-in-[-len,len)-accepted", by_form(lambda E, v, o: z3.Not(key_out_of_range(E, o, o)), None, None)),
+                   ("integer-gives-the-handle-at-the-normalised-position", by_form(item_post, None, None)),
+                   ("slice-gives-the-handles-of-exactly-the-sliced-positions-in-order", by_form(None, slice_post, None)),
+                   ("name-gives-a-fresh-gather-of-the-owner-column-in-window-order", by_form(None, None, str_post))],
+          options=dict(OPTS))
